@@ -65,6 +65,16 @@ prim('raised_lineno', 'Ref[__init__.ConfigurationError] -> Opt[int]')
 prim('raised_url', 'Ref[__init__.ConfigurationError] -> Opt[str]')
 model('ParserContext', fields={}, external=True)
 CTX_MOD = ['*Sink.events']
+# ghost: the number of files / streams currently open (C19).  %import and %include open resources:
+# the context must have closed them again when it returns OR raises; every parser function on the
+# way passes that on.
+model('Ghost', fields={'open_files': 'int'}, external=True)
+UNCHANGED_OPEN = Clause('GHOST.open_files == old(GHOST.open_files)', carries='C19', label='nothing-left-open')
+# (an %import may also replace the loader's schema by a private, extended copy: C12)
+LOADER_SCHEMA = ['*loader.ConfigLoader.schema', '*loader.ConfigLoader._private_schema', '*loader.ConfigLoader._loader']
+CTX_MOD2 = CTX_MOD + ['GHOST.open_files'] + LOADER_SCHEMA
+IOERR = Raise('OSError', then=[UNCHANGED_OPEN], label='io-error-while-reading-a-resource (environment fault, passes through)')
+prim('url_ok', 'str -> bool')      # urllib can parse the URL (no ValueError)
 assumed('ParserContext.startSection', self_type='ParserContext',
         params={'section': 'Ref[Sink]', 'type_': 'str', 'name': 'Opt[str]'}, returns='Ref[Sink]',
         modifies=CTX_MOD, raises=[Raise('ZConfig.ConfigurationError+')])
@@ -74,10 +84,13 @@ assumed('ParserContext.endSection', self_type='ParserContext',
             Clause("implies(isa(exc, 'ZConfig.DataConversionError'), exc.has_lineno and "
                    "exc.lineno == raised_lineno(exc) and exc.url == raised_url(exc))")])])
 assumed('ParserContext.importSchemaComponent', self_type='ParserContext', params={'pkgname': 'str'},
-        modifies=CTX_MOD, raises=[Raise('ZConfig.ConfigurationError+')])
+        modifies=CTX_MOD2, ensures=[UNCHANGED_OPEN],
+        raises=[Raise('ZConfig.ConfigurationError+', then=[UNCHANGED_OPEN]), IOERR])
 assumed('ParserContext.includeConfiguration', self_type='ParserContext',
         params={'section': 'Ref[Sink]', 'url': 'str', 'defines': 'Ref[dict:defines]'},
-        modifies=CTX_MOD + ['defines.items'], raises=[Raise('ZConfig.ConfigurationError+')])
+        requires=[Clause('url_ok(url)', label='url-parses')],
+        modifies=CTX_MOD2 + ['defines.items'], ensures=[UNCHANGED_OPEN],
+        raises=[Raise('ZConfig.ConfigurationError+', then=[UNCHANGED_OPEN]), IOERR])
 
 model('ParserResource', fields={'file': 'Ref[File]', 'url': 'Opt[str]'}, external=True)
 
@@ -155,7 +168,7 @@ contract('cfgparser.ZConfigParser.handle_key_value',
 contract('cfgparser.ZConfigParser.handle_directive',
          params={'section': 'Ref[Sink]', 'rest': 'str'},
          requires=[Clause("'\\n' not in rest", label='single-line')],
-         modifies=['self.defines.items'] + CTX_MOD,
+         modifies=['self.defines.items'] + CTX_MOD2,
          asserts=[At("kv_ok(rest) and kv_key(rest) == 'define' and kv_value(rest) is not None and args[1] == val(kv_value(rest))",
                      call='self.handle_define', carries='C03', label='define-dispatch'),
                   At("kv_ok(rest) and kv_key(rest) == 'import' and kv_value(rest) is not None and args[1] == val(kv_value(rest))",
@@ -164,8 +177,8 @@ contract('cfgparser.ZConfigParser.handle_directive',
                      call='self.handle_include', carries='C03', label='include-dispatch')],
          ensures=[Clause("kv_ok(rest) and (kv_key(rest) == 'define' or kv_key(rest) == 'import' or "
                          "kv_key(rest) == 'include') and kv_value(rest) is not None", carries='C03',
-                         label='only-three-directives-with-argument')],
-         raises=[Raise('ZConfig.ConfigurationError+', carries='C07', label='config-error')])
+                         label='only-three-directives-with-argument'), UNCHANGED_OPEN],
+         raises=[Raise('ZConfig.ConfigurationError+', then=[UNCHANGED_OPEN], carries='C07', label='config-error'), IOERR])
 
 contract('cfgparser.ZConfigParser.handle_define',
          params={'section': 'Ref[Sink]', 'rest': 'str'},
@@ -194,22 +207,24 @@ c.raises = [Raise('ZConfig.ConfigurationError+', when='define_err(self.defines.i
                   carries='C05', label='rejected')]
 
 prim('urljoin_val', 'Opt[str], str -> str')
-REGISTRY['url.urljoin'].ensures = [Clause('result == urljoin_val(base, relurl)')]
+REGISTRY['url.urljoin'].ensures = [Clause('result == urljoin_val(base, relurl)'), Clause('url_ok(result)')]
 
 contract('cfgparser.ZConfigParser.handle_import',
-         params={'section': 'Ref[Sink]', 'rest': 'str'}, modifies=CTX_MOD,
+         params={'section': 'Ref[Sink]', 'rest': 'str'}, modifies=CTX_MOD2,
          asserts=[At('subst_spec(old(rest).strip(), self.defines.items) == (0, args[0])',
                      call='self.context.importSchemaComponent', carries='C03,C12', label='import-expanded-name')],
-         raises=[Raise('ZConfig.ConfigurationError+', carries='C07', label='config-error')])
+         ensures=[UNCHANGED_OPEN],
+         raises=[Raise('ZConfig.ConfigurationError+', then=[UNCHANGED_OPEN], carries='C07', label='config-error'), IOERR])
 
 contract('cfgparser.ZConfigParser.handle_include',
-         params={'section': 'Ref[Sink]', 'rest': 'str'}, modifies=CTX_MOD + ['self.defines.items'],
+         params={'section': 'Ref[Sink]', 'rest': 'str'}, modifies=CTX_MOD2 + ['self.defines.items'],
+         ensures=[UNCHANGED_OPEN],
          asserts=[At('args[0] == section and args[2] == self.defines and '
                      'subst_spec(old(rest).strip(), self.defines.items)[0] == 0 and '
                      'args[1] == urljoin_val(self.url, subst_spec(old(rest).strip(), self.defines.items)[1])',
                      call='self.context.includeConfiguration', carries='C05,C06,C18',
                      label='include-current-section-same-defines-url-relative-to-includer')],
-         raises=[Raise('ZConfig.ConfigurationError+', carries='C07', label='config-error')])
+         raises=[Raise('ZConfig.ConfigurationError+', then=[UNCHANGED_OPEN], carries='C07', label='config-error'), IOERR])
 
 # ---- sections -------------------------------------------------------------------------------------------------
 prim('hdr_empty', 'str -> bool', native=lambda rest: rest[-1:] == '/', smt=None)
@@ -263,7 +278,7 @@ contract('cfgparser.ZConfigParser.end_section',
              carries='C08', label='config-error')])
 
 # ---- the line loop -----------------------------------------------------------------------------------------------
-PARSE_MOD = ['self.lineno', 'self.stack', 'self.file.lines', 'self.defines.items'] + CTX_MOD
+PARSE_MOD = ['self.lineno', 'self.stack', 'self.file.lines', 'self.defines.items'] + CTX_MOD2
 contract('cfgparser.ZConfigParser.parse',
          params={'section': 'Ref[Sink]'},
          requires=[Clause('len(self.stack) == 0', carries='C06', label='own-empty-stack')],
@@ -278,12 +293,12 @@ contract('cfgparser.ZConfigParser.parse',
                   At("line_class(val(line)) == K_KV and args[0] == section and args[1] == val(line)",
                      call='self.handle_key_value', carries='C03', label='keyvalue-dispatch')],
          ensures=[Clause('len(self.stack) == 0', carries='C03,C06', label='all-sections-closed'),
-                  Clause('len(self.file.lines) == 0', carries='C03', label='read-to-the-end')],
-         raises=[Raise('ZConfig.ConfigurationError+', carries='C07', label='config-error')],
+                  Clause('len(self.file.lines) == 0', carries='C03', label='read-to-the-end'), UNCHANGED_OPEN],
+         raises=[Raise('ZConfig.ConfigurationError+', then=[UNCHANGED_OPEN], carries='C07', label='config-error'), IOERR],
          loops=[Loop(invariant=[Clause('done == (line is None)', label='done-iff-no-line'),
                                 Clause("implies(line is not None, '\\n' not in val(line))", label='single-line'),
                                 Clause('implies(done, len(self.file.lines) == 0)', label='done-at-eof'),
-                                Clause('self.lineno >= 0')],
+                                Clause('self.lineno >= 0'), UNCHANGED_OPEN],
                      decreases='len(self.file.lines) + (0 if done else 1)',
                      locals={'done': 'bool', 'line': 'Opt[str]', 'section': 'Ref[Sink]'},
                      modifies=PARSE_MOD)])
